@@ -85,17 +85,22 @@ CHECKS["C19"] = dict(
               "p2p/verif_point_{on,off}.go + verifPoint calls.")
 
 CHECKS["C09"] = dict(
-    category="translation_validation", design_ref="DESIGN.md section 2 / C09",
-    technique="Lean-proved equivalence checker (constant/copy abstract interpretation + witnessed structural matching) run on real compiler outputs; Lean theorems for topological reorderings and AssignLevels; bit-parallel simulation oracle",
-    text=("checkRefines is proved sound in Lean (C09_checker_sound: an accepted pair of circuits computes equal outputs on every "
-          "input). On every run it is executed on the raw / ConstPropagate / prune-off / prune-on circuits of corpus and "
-          "generated MPCL programs, per target and multiplier threshold, giving per-program equivalence for ALL inputs. "
-          "C09_levels / C09_gmw_schedule prove Compile's level sort and the GMW evaluation schedule are "
-          "evaluation-preserving. Threshold and Yao-vs-GMW pairs (different algorithms) are tested by bit-parallel "
-          "simulation, exhaustive for <= 16 input bits. The target axis is false on the pinned tree "
-          "(C09_target_equivalence_fails; three GMW-divider known findings)."),
-    note=TB + "Lean code generation is trusted for running the checker; the witness search (Go) is untrusted; front end and "
-              "builders are not modelled; threshold/target equivalence is tested, not proved.")
+    category="proof", design_ref="DESIGN.md section 2 / C09",
+    technique="Lean 4 models of the four optimisation passes with preservation theorems for every well-formed gate graph + structural tie (the Lean pass applied to the dumped pre-pass graph must reproduce the real post-pass graph) + Lean-proved equivalence checker (translation validation) + bit-parallel simulation oracle for the threshold/target axes",
+    text=("ConstPropagate, ShortCircuitXORZero, Prune and Compile are modelled in Lean as the Go code implements them (value "
+          "annotations, fan-out counters, stale pointers, BFS numbering, GMW level sort) and proved to preserve "
+          "Circuit.compute for EVERY well-formed input graph (C09_constPropagate_preserves, C09_shortCircuit_preserves, "
+          "C09_prune_preserves, C09_compile_preserves_partial, C09_pipeline_preserves: prune off and on compute the raw "
+          "function). On every run, for each program and target the harness dumps raw -> ConstPropagate -> "
+          "ShortCircuitXORZero -> Prune graphs and both compiled circuits; the Lean pass applied to each dump must "
+          "reproduce the next one exactly, and the proved hypothesis checkers must accept the real graphs. Independently, "
+          "checkRefines (proved sound: an accepted pair computes equal outputs on every input) validates every "
+          "raw/prune-off/prune-on pair. Threshold and Yao-vs-GMW pairs (different algorithms) are tested by simulation, "
+          "exhaustive for <= 16 input bits; the target axis is false for division (Goldschmidt inexactness, known finding "
+          "with a kernel-checked witness)."),
+    note=TB + "Compile's BFS numbering is validated per run (compileChecks inside the tied model function), not proved in "
+              "general; pass hypotheses are chained by proved checkers on the real dumps; threshold/target equivalence is "
+              "tested, not proved; fan-out counters modelled as unbounded naturals.")
 
 CHECKS["C11"] = dict(
     category="proof", design_ref="DESIGN.md section 2 / C11",
@@ -173,10 +178,11 @@ CHECKS["C05"] = dict(
           "codec with garble/eval, compared per run with the real GC'd step list, real wire ids parsed off the wire, and "
           "real Streaming.Garble bytes. Proved: codec round trip for both id encodings and all flags; a streamed "
           "gate/circuit/program keeps the C01 relation on the global wire store with no evaluator error and equal tweak "
-          "counters; GC is safe without alias chains/concat; negation witnesses for both; safety of a transitively closed "
-          "alias table."),
-    note=TB + "Partial: AST->SSA front end and circuit cache validated only; full GC safety is false on the pinned tree (known "
-              "findings with Lean witnesses, or repaired by a fix: commit, see known_findings.json).")
+          "counters; C05_gc_safe: Program.GC (transitive alias closure, as repaired) never frees a wire range a later-read "
+          "value points into, for every well-formed program; the allocator's hash table (bucket chains, move-to-front "
+          "lookup, remove) deletes exactly the requested header (C05_walloc_remove_exact)."),
+    note=TB + "Partial: AST->SSA front end and circuit cache validated only; the pre-fix GC and constant-padding defects are "
+              "kept as theorems about explicitly named old definitions.")
 
 CHECKS["C10"] = dict(
     category="proof", design_ref="DESIGN.md section 2 / C10",
